@@ -5,8 +5,11 @@
 //@ gsubst `std::io::Error` => `IoError` :: R11 stub type (opaque error value)
 //@ gsubst `lz4_flex::frame::Error` => `Lz4Error` :: R11 stub type (opaque error value)
 //@ gsubst `Infallible` => `VxInfallible` :: R11 stub type (opaque error value)
+//@ gsubst `to_le_bytes` => `vx_to_le_bytes` :: R11 stub for std `{u8,u32}::to_le_bytes` (result length is in the type; byte values unspecified)
+//@ gsubst `size_of_val` => `vx_size_of_val` :: R11 stub with the documented contract size_of_val(&x) == size_of::<T>() for Sized T
 #![allow(non_snake_case, unused)]
 use vstd::prelude::*;
+use std::mem::size_of;
 verus! {
 global size_of usize == 8;
 
@@ -16,7 +19,19 @@ global size_of usize == 8;
 //@ end
 //@ extract cas_object/src/cas_object_format.rs type CasObjectIdent
 //@ end
+//@ extract cas_object/src/cas_object_format.rs const CAS_OBJECT_FORMAT_IDENT
+//@ end
+//@ extract cas_object/src/cas_object_format.rs const CAS_OBJECT_FORMAT_IDENT_HASHES
+//@ end
+//@ extract cas_object/src/cas_object_format.rs const CAS_OBJECT_FORMAT_IDENT_BOUNDARIES
+//@ end
+//@ extract cas_object/src/cas_object_format.rs const CAS_OBJECT_FORMAT_VERSION
+//@ end
+//@ extract cas_object/src/cas_object_format.rs const CAS_OBJECT_FORMAT_HASHES_VERSION
+//@ end
 //@ extract cas_object/src/cas_object_format.rs const CAS_OBJECT_FORMAT_BOUNDARIES_VERSION
+//@ end
+//@ extract cas_object/src/cas_object_format.rs const CAS_OBJECT_INFO_DEFAULT_LENGTH
 //@ end
 //@ extract cas_object/src/cas_object_format.rs struct CasObjectInfoV1
 //@ end
@@ -44,6 +59,20 @@ pub proof fn lemma_trunc_le(len: usize)
     ensures (len as u32) as usize <= len,
 {
     assert((len as u32) as usize <= len) by (bit_vector);
+}
+
+pub proof fn lemma_bounds_nondecreasing(c: Seq<(MerkleHash, u32)>, data_len: int, us: Seq<u32>)
+    requires bounds_ok(c, data_len), us.len() == c.len(), forall|i: int| 0 <= i < us.len() ==> us[i] == c[i].1,
+    ensures nondecreasing(us),
+{
+    assert forall|i: int, j: int| 0 <= i <= j < us.len() implies us[i] <= us[j] by { lemma_bounds_step(c, data_len, i, j); }
+}
+pub proof fn lemma_bounds_step(c: Seq<(MerkleHash, u32)>, data_len: int, i: int, j: int)
+    requires bounds_ok(c, data_len), 0 <= i <= j < c.len(),
+    ensures c[i].1 <= c[j].1,
+    decreases j - i,
+{
+    if i < j { lemma_bounds_step(c, data_len, i, j - 1); assert(bound_before(c, j) <= c[j].1); }
 }
 
 impl CasObject {
@@ -119,6 +148,259 @@ impl CasObject {
         proof { lemma_range_len_telescopes(self.info.unpacked_chunk_offsets@, chunk_index_start as int, chunk_index_end as int); }
 //@ before `return Ok(0);`
         proof { lemma_range_len_telescopes(self.info.unpacked_chunk_offsets@, chunk_index_start as int, chunk_index_end as int); }
+//@ end
+}
+
+// ==== serialization side ================================================================================================
+// ---- writer stubs (R11): only the number of bytes written is modelled ---------------------------------------------------
+pub trait Write {
+    spec fn wlen(&self) -> nat;
+    fn write_all(&mut self, buf: &[u8]) -> (r: Result<(), IoError>)
+        ensures r is Ok ==> final(self).wlen() == old(self).wlen() + buf@.len();
+}
+pub trait Seek {}
+// countio::Counter: counts the bytes that pass through it
+pub struct Counter { pub ghost n: nat }
+impl Counter {
+    #[verifier::external_body]
+    pub fn new<W: Write>(w: &mut W) -> (r: Counter) ensures r.n == 0 { unimplemented!() }
+    #[verifier::external_body]
+    pub fn writer_bytes(&self) -> (r: usize) requires self.n <= usize::MAX ensures r == self.n { unimplemented!() }
+}
+impl Write for Counter {
+    open spec fn wlen(&self) -> nat { self.n }
+    #[verifier::external_body]
+    fn write_all(&mut self, buf: &[u8]) -> (r: Result<(), IoError>) { unimplemented!() }
+}
+// `to_le_bytes` (std): vstd has no specification and its anonymous-const return type cannot be named in `assume_specification`;
+// the calls go through this stub trait (only the array length, carried by the type, matters here)
+pub trait VxToLe { type B; fn vx_to_le_bytes(self) -> Self::B; }
+impl VxToLe for u32 { type B = [u8; 4]; #[verifier::external_body] fn vx_to_le_bytes(self) -> [u8; 4] { self.to_le_bytes() } }
+impl VxToLe for u8 { type B = [u8; 1]; #[verifier::external_body] fn vx_to_le_bytes(self) -> [u8; 1] { self.to_le_bytes() } }
+impl MerkleHash {
+    #[verifier::external_body]
+    pub fn as_bytes(&self) -> (r: &[u8]) ensures r@.len() == 32 { unimplemented!() }
+}
+global layout MerkleHash is size == 32, align == 8;
+// std::mem::size_of_val(&x) == size_of::<T>() for Sized T (std documentation)
+#[verifier::external_body]
+pub fn vx_size_of_val<T>(x: &T) -> (r: usize) ensures r == vstd::layout::size_of::<T>() { std::mem::size_of_val(x) }
+// Rust reference (layout.array): [T; N] has size N * size_of::<T>()
+pub proof fn axiom_size_of_u8_array<const N: usize>() ensures vstd::layout::size_of::<[u8; N]>() == N { admit(); }
+
+#[derive(Clone, Copy)]
+pub enum CompressionScheme { None, LZ4, ByteGrouping4LZ4 }
+// number of bytes `serialize_chunk` writes for a chunk: 8-byte header + payload (compressed, or raw when compression does not help)
+pub uninterp spec fn spec_chunk_ser_len(chunk: Seq<u8>, scheme: Option<CompressionScheme>) -> nat;
+#[verifier::external_body]
+pub fn serialize_chunk<W: Write>(chunk: &[u8], w: &mut W, compression_scheme: Option<CompressionScheme>) -> (r: Result<usize, CasObjectError>)
+    ensures r matches Ok(n) ==> n == spec_chunk_ser_len(chunk@, compression_scheme) && 8 <= n <= 8 + chunk@.len()
+        && final(w).wlen() == old(w).wlen() + n,
+{ unimplemented!() }
+
+// R7 outlines of the two iterator chains in `CasObject::serialize` (bodies are the original expressions; contracts assumed)
+#[verifier::external_body]
+fn vx_collect_hashes(chunk_and_boundaries: &[(MerkleHash, u32)]) -> (r: Vec<MerkleHash>)
+    ensures r@.len() == chunk_and_boundaries@.len(), forall|i: int| 0 <= i < r@.len() ==> r@[i] == chunk_and_boundaries@[i].0,
+{ chunk_and_boundaries.iter().map(|(hash, _)| *hash).collect() }
+#[verifier::external_body]
+fn vx_collect_bounds(chunk_and_boundaries: &[(MerkleHash, u32)]) -> (r: Vec<u32>)
+    ensures r@.len() == chunk_and_boundaries@.len(), forall|i: int| 0 <= i < r@.len() ==> r@[i] == chunk_and_boundaries@[i].1,
+{ chunk_and_boundaries.iter().map(|(_, unpacked_chunk_boundary)| *unpacked_chunk_boundary).collect() }
+
+// ---- footer geometry ------------------------------------------------------------------------------------------------------
+pub open spec fn first_section_len() -> nat { 7 + 1 + 32 }
+pub open spec fn hash_section_len(nh: nat) -> nat { 7 + 1 + 4 + 32 * nh }
+pub open spec fn boundary_section_len(nb: nat, nu: nat) -> nat { 7 + 1 + 4 + 4 * nb + 4 * nu + 4 + 4 + 4 + 16 }
+pub open spec fn info_len(k: nat) -> nat { first_section_len() + hash_section_len(k) + boundary_section_len(k, k) }
+
+// ---- the chunk list handed to `serialize` -----------------------------------------------------------------------------------
+pub open spec fn bound_before(c: Seq<(MerkleHash, u32)>, i: int) -> int { if i <= 0 { 0 } else { c[i - 1].1 as int } }
+// the unpacked end offsets are non-decreasing and inside `data` (otherwise `&data[a..b]` panics)
+pub open spec fn bounds_ok(c: Seq<(MerkleHash, u32)>, data_len: int) -> bool {
+    forall|i: int| 0 <= i < c.len() ==> bound_before(c, i) <= (#[trigger] c[i]).1 <= data_len
+}
+pub open spec fn written_j(data: Seq<u8>, c: Seq<(MerkleHash, u32)>, scheme: Option<CompressionScheme>, j: int) -> nat {
+    spec_chunk_ser_len(data.subrange(bound_before(c, j), c[j].1 as int), scheme)
+}
+// bytes written for chunks 0..i
+pub open spec fn written_sum(data: Seq<u8>, c: Seq<(MerkleHash, u32)>, scheme: Option<CompressionScheme>, i: int) -> nat decreases i {
+    if i <= 0 { 0 } else { written_sum(data, c, scheme, i - 1) + written_j(data, c, scheme, i - 1) }
+}
+pub proof fn lemma_written_sum_mono(data: Seq<u8>, c: Seq<(MerkleHash, u32)>, scheme: Option<CompressionScheme>, i: int, j: int)
+    requires i <= j,
+    ensures written_sum(data, c, scheme, i) <= written_sum(data, c, scheme, j),
+    decreases j - i,
+{
+    if i < j { lemma_written_sum_mono(data, c, scheme, i, j - 1); }
+}
+
+impl CasObjectInfoV1 {
+    // the two offset fields hold the section lengths
+    spec fn offsets_filled(&self) -> bool {
+        &&& self.boundary_section_offset_from_end == boundary_section_len(self.chunk_boundary_offsets@.len(), self.unpacked_chunk_offsets@.len())
+        &&& self.hashes_section_offset_from_end == hash_section_len(self.chunk_hashes@.len())
+                + boundary_section_len(self.chunk_boundary_offsets@.len(), self.unpacked_chunk_offsets@.len())
+    }
+}
+
+//@ extract utils/src/serialization_utils.rs fn write_hash
+//@ ret r
+//@ contract
+    ensures r is Ok ==> final(writer).wlen() == old(writer).wlen() + 32,
+//@ end
+//@ extract utils/src/serialization_utils.rs fn write_u8
+//@ ret r
+//@ contract
+    ensures r is Ok ==> final(writer).wlen() == old(writer).wlen() + 1,
+//@ end
+//@ extract utils/src/serialization_utils.rs fn write_u32
+//@ ret r
+//@ contract
+    ensures r is Ok ==> final(writer).wlen() == old(writer).wlen() + 4,
+//@ end
+//@ extract utils/src/serialization_utils.rs fn write_bytes
+//@ ret r
+//@ contract
+    ensures r is Ok ==> final(writer).wlen() == old(writer).wlen() + vs@.len(),
+//@ end
+//@ extract utils/src/serialization_utils.rs fn write_u32s
+//@ ret r
+//@ rules R4s
+//@ contract
+    ensures r is Ok ==> final(writer).wlen() == old(writer).wlen() + 4 * vs@.len(),
+//@ loop 1
+        invariant writer.wlen() == old(writer).wlen() + 4 * vx_i_e,
+//@ end
+
+// (the `Default` impls are public trait impls; Verus does not let their contracts name fields of the crate-private structs
+// directly, hence the two predicates)
+pub closed spec fn info_is_default(r: CasObjectInfoV1) -> bool {
+    &&& r.num_chunks == 0 && r.chunk_hashes@.len() == 0 && r.chunk_boundary_offsets@.len() == 0 && r.unpacked_chunk_offsets@.len() == 0
+    &&& r.boundaries_version == CAS_OBJECT_FORMAT_BOUNDARIES_VERSION && r.cashash == zero_hash()
+    &&& r.offsets_filled()
+}
+pub closed spec fn cas_is_default(r: CasObject) -> bool { info_is_default(r.info) && r.info_length == info_len(0) }
+impl Default for CasObjectInfoV1 {
+//@ extract cas_object/src/cas_object_format.rs in `impl Default for CasObjectInfoV1` fn default
+//@ ret r
+//@ contract
+        ensures info_is_default(r),
+//@ end
+}
+impl Default for CasObject {
+//@ extract cas_object/src/cas_object_format.rs in `impl Default for CasObject` fn default
+//@ ret r
+//@ contract
+        ensures cas_is_default(r),
+//@ end
+}
+
+impl CasObjectInfoV1 {
+//@ extract cas_object/src/cas_object_format.rs in `impl CasObjectInfoV1` fn fill_in_boundary_offsets
+//@ contract
+        requires
+            // the u32 arithmetic of the two offsets: 52 + 32*|hashes| + 4*|boundaries| + 4*|unpacked| must fit u32
+            hash_section_len(old(self).chunk_hashes@.len()) + boundary_section_len(old(self).chunk_boundary_offsets@.len(), old(self).unpacked_chunk_offsets@.len()) <= u32::MAX,
+        ensures
+            /*@C07*/ final(self).offsets_filled(),
+            *final(self) == (CasObjectInfoV1 {
+                boundary_section_offset_from_end: final(self).boundary_section_offset_from_end,
+                hashes_section_offset_from_end: final(self).hashes_section_offset_from_end,
+                ..*old(self) }),
+//@ body-start
+        broadcast use vstd::layout::layout_of_primitives;
+        proof { axiom_size_of_u8_array::<7>(); axiom_size_of_u8_array::<16>();
+            assert(self.chunk_hashes@.len() * vstd::layout::size_of::<MerkleHash>() == 32 * self.chunk_hashes@.len()) by (nonlinear_arith)
+                requires vstd::layout::size_of::<MerkleHash>() == 32;
+            assert(self.chunk_boundary_offsets@.len() * vstd::layout::size_of::<u32>() == 4 * self.chunk_boundary_offsets@.len()) by (nonlinear_arith)
+                requires vstd::layout::size_of::<u32>() == 4;
+            assert(self.unpacked_chunk_offsets@.len() * vstd::layout::size_of::<u32>() == 4 * self.unpacked_chunk_offsets@.len()) by (nonlinear_arith)
+                requires vstd::layout::size_of::<u32>() == 4;
+        }
+//@ end
+
+//@ extract cas_object/src/cas_object_format.rs in `impl CasObjectInfoV1` fn serialize
+//@ ret r
+//@ rules R15 R4s
+//@ subst `countio::Counter::new(writer)` => `Counter::new(writer)` :: R11 stub type for the countio dependency
+//@ contract
+        requires
+            // R2: the three `debug_assert_eq!` on the table lengths are obligations
+            self.num_chunks == self.chunk_hashes@.len(),
+            self.num_chunks == self.chunk_boundary_offsets@.len(),
+            self.num_chunks == self.unpacked_chunk_offsets@.len(),
+        ensures
+            /*@C07*/ r matches Ok(n) ==> n == info_len(self.num_chunks as nat),
+//@ before `write_bytes(w, &self.ident_hash_section)`
+        let ghost c_h = w.n;
+//@ loop 1
+            invariant
+                self.num_chunks == self.chunk_hashes@.len(),
+                w.n == c_h + 12 + 32 * vx_i_hash,
+                c_h == first_section_len(),
+//@ before `write_bytes(w, &self.ident_boundary_section)`
+        let ghost c_b = w.n;
+//@ before `Ok(w.writer_bytes())`
+        // the section offsets stored in the footer are the distances from the section starts to the end of the footer
+        /*@C07*/ assert(self.offsets_filled() ==> w.n - c_h == self.hashes_section_offset_from_end);
+        /*@C07*/ assert(self.offsets_filled() ==> w.n - c_b == self.boundary_section_offset_from_end);
+//@ end
+}
+
+impl CasObject {
+//@ extract cas_object/src/cas_object_format.rs in `impl CasObject` fn serialize
+//@ ret r
+//@ rules R4s
+//@ subst `chunk_and_boundaries.iter().map(|(hash, _)| *hash).collect()` => `vx_collect_hashes(chunk_and_boundaries)` :: R7 outline (iterator chain), contract assumed: pointwise first components
+//@ subst `chunk_and_boundaries .iter() .map(|(_, unpacked_chunk_boundary)| *unpacked_chunk_boundary) .collect()` => `vx_collect_bounds(chunk_and_boundaries)` :: R7 outline (iterator chain), contract assumed: pointwise second components
+//@ contract
+        requires
+            // `&data[a..b]` of every chunk is in range
+            bounds_ok(chunk_and_boundaries@, data@.len() as int),
+            // u32 no-overflow preconditions that are genuinely needed:
+            //  (1) the physical end offset of every chunk fits u32 (otherwise `total_written_bytes as u32` truncates and the table wraps)
+            written_sum(data@, chunk_and_boundaries@, compression_scheme, chunk_and_boundaries@.len() as int) <= u32::MAX,
+            //  (2) the footer length 92 + 40*k fits u32 (`len() as u32`, `info_length as u32`, section offsets)
+            info_len(chunk_and_boundaries@.len()) <= u32::MAX,
+        ensures
+            r matches Ok((cas, total)) ==> ({
+                let c = chunk_and_boundaries@;
+                let k = c.len();
+                &&& /*@C07*/ cas.info.num_chunks == k
+                &&& /*@C07*/ cas.info.chunk_hashes@.len() == k && cas.info.unpacked_chunk_offsets@.len() == k && cas.info.chunk_boundary_offsets@.len() == k
+                &&& /*@C07*/ forall|i: int| 0 <= i < k ==> cas.info.chunk_hashes@[i] == c[i].0
+                &&& /*@C07*/ forall|i: int| 0 <= i < k ==> cas.info.unpacked_chunk_offsets@[i] == c[i].1
+                &&& /*@C07*/ forall|i: int| 0 <= i < k ==> cas.info.chunk_boundary_offsets@[i] == written_sum(data@, c, compression_scheme, i + 1)
+                &&& /*@C07*/ nondecreasing(cas.info.chunk_boundary_offsets@)
+                &&& /*@C07*/ nondecreasing(cas.info.unpacked_chunk_offsets@)
+                &&& /*@C07*/ cas.info.cashash == *hash
+                &&& /*@C07*/ cas.info.boundaries_version == CAS_OBJECT_FORMAT_BOUNDARIES_VERSION
+                &&& /*@C07*/ cas.info.offsets_filled()
+                &&& /*@C07*/ cas.info_length == info_len(k)
+                &&& /*@C07*/ total == written_sum(data@, c, compression_scheme, k as int) + info_len(k) + 4
+            }),
+//@ before `let mut total_written_bytes`
+        let ghost c = chunk_and_boundaries@; let ghost k = c.len(); let ghost hs = cas.info.chunk_hashes@; let ghost us = cas.info.unpacked_chunk_offsets@;
+//@ loop 1
+            invariant
+                c == chunk_and_boundaries@, k == c.len(), bounds_ok(c, data@.len() as int),
+                written_sum(data@, c, compression_scheme, k as int) <= u32::MAX, info_len(k) <= u32::MAX,
+                cas.info.chunk_hashes@ == hs, cas.info.unpacked_chunk_offsets@ == us, cas.info.num_chunks == k,
+                cas.info.cashash == *hash, cas.info.boundaries_version == CAS_OBJECT_FORMAT_BOUNDARIES_VERSION,
+                cas.info.chunk_boundary_offsets@.len() == vx_i_boundary,
+                total_written_bytes == written_sum(data@, c, compression_scheme, vx_i_boundary as int),
+                raw_start_idx == bound_before(c, vx_i_boundary as int),
+                forall|i: int| 0 <= i < vx_i_boundary ==> cas.info.chunk_boundary_offsets@[i] == written_sum(data@, c, compression_scheme, i + 1),
+//@ after `serialize_chunk(chunk_raw_bytes, writer, compression_scheme)?;`
+            proof { lemma_written_sum_mono(data@, c, compression_scheme, vx_i_boundary + 1, k as int); }
+//@ before `cas.info.fill_in_boundary_offsets();`
+        proof {
+            assert forall|i: int, j: int| 0 <= i <= j < k implies cas.info.chunk_boundary_offsets@[i] <= cas.info.chunk_boundary_offsets@[j] by {
+                lemma_written_sum_mono(data@, c, compression_scheme, i + 1, j + 1);
+            }
+            lemma_bounds_nondecreasing(c, data@.len() as int, us);
+        }
 //@ end
 }
 
